@@ -2402,6 +2402,10 @@ def r156_compound_literal(pe, rep, keep, states=None):
     def h_equal(it, ctx, nd, args):
         if args[0] is ctx.c15_tok and args[1] == '(':
             return 1
+        if getattr(ctx, 'c15_ty', None) is not None:
+            # the input judged is `(T){...}` followed by a token that is no postfix operator: what postfix() applies to the literal
+            # afterwards ([], (), ., ->, ++, --) does not change which object the literal is
+            return 0
         return _fresh_bool(ctx, 'equal')
 
     def h_typename(it, ctx, nd, args):
